@@ -22,6 +22,8 @@ type Violation struct {
 	Detail string          `json:"detail"`
 	Case   json.RawMessage `json:"case"`
 	Count  int             `json:"count"`
+	Shard  int             `json:"shard"`
+	Pass   string          `json:"pass"`
 }
 
 type Result struct {
@@ -51,12 +53,13 @@ type Ctx struct {
 	vio      map[string]*Violation
 	notes    map[string]bool
 	stop     bool
+	untilSig string // history replay: stop as soon as this signature has been recorded
 }
 
 const maxOutcomes = 200000
 const maxSamples = 6
 
-func (c *Ctx) Thorough() bool { return c.Tier == "thorough" }
+func (c *Ctx) Thorough() bool             { return c.Tier == "thorough" }
 func (c *Ctx) Count(name string, n int64) { c.res.Counters[name] += n }
 func (c *Ctx) Max(name string, v int64) {
 	if v > c.res.Maxes[name] {
@@ -118,6 +121,13 @@ func (c *Ctx) Violate(v *Violation) {
 		old.Count++
 		return
 	}
+	v.Shard, v.Pass = c.Shard, os.Getenv("VERIF_PASS")
+	if c.untilSig != "" {
+		if v.Sig != c.untilSig {
+			return // history replay: only the awaited signature matters
+		}
+		c.stop = true
+	}
 	if len(c.vio) >= maxDistinctViolations {
 		c.res.Counters["violations_beyond_cap"]++
 		c.stop = true
@@ -133,7 +143,9 @@ const maxDistinctViolations = 40
 func (c *Ctx) Expired() bool {
 	if c.stop {
 		c.Flag("exhaustive", false)
-		c.Note("exploration stopped early: more than 40 distinct violation signatures in one worker")
+		if c.untilSig == "" {
+			c.Note("exploration stopped early: more than 40 distinct violation signatures in one worker")
+		}
 		return true
 	}
 	if !c.Deadline.IsZero() && time.Now().After(c.Deadline) {
@@ -183,6 +195,7 @@ func main() {
 		deadline = flag.Int("deadline", 0, "internal deadline in seconds")
 		seed     = flag.Int64("seed", 0, "")
 		sub      = flag.String("sub", "", "sub-mode (check specific, e.g. C12 child)")
+		untilSig = flag.String("until-sig", "", "history replay: run the shard until this violation signature is recorded")
 		_        = flag.Bool("test.v", false, "accepted so that the worker can be started in go-test mode")
 	)
 	flag.StringVar(&stdoutFile, "stdout-file", "", "file that fd 1 is redirected to")
@@ -232,7 +245,7 @@ func main() {
 	c := &Ctx{Tier: *tier, Shard: *shard, NShards: *nshards, Seed: *seed,
 		res: &Result{Check: *check, Shard: *shard, Counters: map[string]int64{}, Maxes: map[string]int64{},
 			Flags: map[string]bool{}, Info: map[string]any{}},
-		outcomes: map[uint64]struct{}{}, vio: map[string]*Violation{}, notes: map[string]bool{}}
+		outcomes: map[uint64]struct{}{}, vio: map[string]*Violation{}, notes: map[string]bool{}, untilSig: *untilSig}
 	if *deadline > 0 {
 		c.Deadline = time.Now().Add(time.Duration(*deadline) * time.Second)
 	}
